@@ -307,9 +307,18 @@ func (g *Gen) contractCall(in *ssa.Call, con *Contract, callee *ssa.Function, co
 				saved[gh] = g.ghostGet(st, gh)
 			}
 		}
+		keep := map[string]string{}
+		if len(con.Preserves) > 0 {
+			for k := range g.modifiesKeys(&Contract{Modifies: con.Preserves, File: con.File, Line: con.Line}, cpkg) {
+				keep[k] = g.heapGet(st, k, g.heapSortsM[k])
+			}
+		}
 		g.havocAll(st, short)
 		for k, v := range saved {
 			st.ghost[k] = v
+		}
+		for k, v := range keep {
+			st.heaps[k] = v
 		}
 		mayAlloc = true
 	} else {
@@ -322,6 +331,15 @@ func (g *Gen) contractCall(in *ssa.Call, con *Contract, callee *ssa.Function, co
 	for _, m := range con.Modifies {
 		if gv, isGhost := g.cs.Ghosts[m]; isGhost {
 			st.ghost[m] = g.freshConst("callgh."+m, g.sortOf(g.resolveType(gv.Type, cpkg)))
+		}
+	}
+	// ghost variables the contract does not list: preserved unless a function that may modify
+	// them is reachable from the callee (CHA call graph); bodiless callees preserve them
+	if callee != nil && !con.Trusted {
+		for gh, gv := range g.cs.Ghosts {
+			if !containsStr(con.Modifies, gh) && g.prog.ghostMayModify(g.cs, gh, callee) {
+				st.ghost[gh] = g.freshConst("callgh."+gh, g.sortOf(g.resolveType(gv.Type, cpkg)))
+			}
 		}
 	}
 	res := sig.Results()
@@ -735,6 +753,13 @@ func (g *Gen) intrinsic(in *ssa.Call, key string, common *ssa.CallCommon, args [
 			g.addFact("(not (= (if-tag " + sv.S + ") 0))")
 			// distinct from package-level sentinels created elsewhere
 			g.addFact("(not (= (if-tag " + sv.S + ") 999))")
+			// an error wrapped with %w keeps its class (errClass is an uninterpreted classification of errors)
+			if key == "fmt.Errorf" && len(common.Args) == 2 {
+				if w := g.wrappedError(common.Args[1], st); w != "" {
+					g.Ctx.declErrClass()
+					g.addFact("(= (ext.errclass " + sv.S + ") (ext.errclass " + w + "))")
+				}
+			}
 		}
 	case "fmt.Sprintf":
 		if in != nil {
@@ -1023,4 +1048,46 @@ func (c *Ctx) declCRC() {
 	c.uses["str"] = true
 	c.declareFun("ext.crc32", []string{"String"}, "Int")
 	c.trusted["hash/crc32.ChecksumIEEE is an uninterpreted function of the byte string (collisions are not considered)"] = true
+}
+
+func (c *Ctx) declErrClass() {
+	c.declareFun("ext.errclass", []string{"Iface"}, "Int")
+}
+
+// wrappedError finds an error-typed value stored into the varargs array of a fmt.Errorf call.
+func (g *Gen) wrappedError(varargs ssa.Value, st *State) string {
+	sl, ok := varargs.(*ssa.Slice)
+	if !ok {
+		return ""
+	}
+	al, ok := sl.X.(*ssa.Alloc)
+	if !ok {
+		return ""
+	}
+	found := ""
+	for _, ref := range *al.Referrers() {
+		ia, ok := ref.(*ssa.IndexAddr)
+		if !ok {
+			continue
+		}
+		for _, r2 := range *ia.Referrers() {
+			stI, ok := r2.(*ssa.Store)
+			if !ok {
+				continue
+			}
+			v := stI.Val
+			if ci, ok := v.(*ssa.ChangeInterface); ok {
+				v = ci.X
+			}
+			if mi, ok := v.(*ssa.MakeInterface); ok {
+				v = mi.X
+			}
+			if types.Identical(v.Type(), errorType) {
+				if sv, ok := g.vals[v]; ok && sv.LV == nil && sv.Tup == nil {
+					found = sv.S
+				}
+			}
+		}
+	}
+	return found
 }
